@@ -39,6 +39,20 @@ def linked (vm : VM) (root : Bytes) : List CommitmentOp → List Bytes → Bytes
     (nextRoots root ops).any (fun r => vm op.proof op.spec r k leaf && linked vm root ops ks r)
   | _, _, _ => false
 
+/-- the verdicts of the REAL `ics23::verify_membership` on the queries a chain check can make,
+    recorded by the harness next to the answer: (operation index, root, key, value, verdict) -/
+abbrev VmTable := List (Nat × Bytes × Bytes × Bytes × Bool)
+
+/-- `vm` as answered by the real ics23: a query about the proof of some operation of the chain is
+    looked up in the table; a query that was not recorded counts as rejected -/
+def vmOfTable (chain : List CommitmentOp) (tbl : VmTable) : VM := fun p s root key value =>
+  match tbl.find? (fun e =>
+      (match chain[e.1]? with
+       | some op => decide (op.proof = p) && decide (op.spec = s)
+       | none => false) && e.2.1 == root && e.2.2.1 == key && e.2.2.2.1 == value) with
+  | some e => e.2.2.2.2
+  | none => false
+
 /-- observed outcome of `get_verified_balance` -/
 inductive Obs where
   | ok (amount : Nat)
